@@ -33,7 +33,9 @@ pub fn idl_parse(data: &[u8]) -> CaseResult {
 
 fn key(u: &mut Unstructured<'_>, depth: u32) -> arbitrary::Result<c03::K> {
     use c03::K;
-    Ok(match u.int_in_range(0u8..=17)? {
+    Ok(match u.int_in_range(0u8..=19)? {
+        18 => K::CollectStr(pieces(u)?),
+        19 => K::Net(u.arbitrary()?, u.arbitrary()?, u.arbitrary()?),
         0 | 1 => K::Str(String::arbitrary_lossy(u)?),
         2 => K::Char(u.arbitrary()?),
         3 => K::I8(u.arbitrary()?),
@@ -76,7 +78,7 @@ impl LossyString for String {
 
 fn value(u: &mut Unstructured<'_>, depth: u32) -> arbitrary::Result<c03::V> {
     use c03::V;
-    let top = if depth == 0 { 20 } else { 29 };
+    let top = if depth == 0 { 24 } else { 35 };
     Ok(match u.int_in_range(0u8..=top)? {
         0 => V::Bool(u.arbitrary()?),
         1 => V::I8(u.arbitrary()?),
@@ -98,13 +100,25 @@ fn value(u: &mut Unstructured<'_>, depth: u32) -> arbitrary::Result<c03::V> {
         18 => V::Unit,
         19 => V::UnitStruct,
         20 => V::UnitVariant(u.arbitrary()?),
-        21 => V::Some(Box::new(value(u, depth - 1)?)),
-        22 => V::NewtypeStruct(Box::new(value(u, depth - 1)?)),
-        23 => V::NewtypeVariant(u.arbitrary()?, Box::new(value(u, depth - 1)?)),
-        24 => V::Seq(values(u, depth - 1)?, u.arbitrary()?),
-        25 => V::Tuple(values(u, depth - 1)?),
-        26 => V::TupleVariant(u.arbitrary()?, values(u, depth - 1)?),
-        27 => {
+        21 | 22 => V::CollectStr(pieces(u)?),
+        23 => V::HumanReadable,
+        24 => V::Net(u.arbitrary()?, u.arbitrary()?, u.arbitrary()?),
+        25 => V::Some(Box::new(value(u, depth - 1)?)),
+        26 => V::NewtypeStruct(Box::new(value(u, depth - 1)?)),
+        27 => V::NewtypeVariant(u.arbitrary()?, Box::new(value(u, depth - 1)?)),
+        28 => V::Seq(values(u, depth - 1)?, u.arbitrary()?),
+        29 => V::Tuple(values(u, depth - 1)?),
+        30 => V::TupleVariant(u.arbitrary()?, values(u, depth - 1)?),
+        31 => V::CollectSeq(values(u, depth - 1)?, u.arbitrary()?),
+        32 => {
+            let n = u.int_in_range(0usize..=3)?;
+            let mut kv = Vec::new();
+            for _ in 0..n {
+                kv.push((key(u, 2)?, value(u, depth - 1)?));
+            }
+            V::CollectMap(kv)
+        }
+        33 => {
             let n = u.int_in_range(0usize..=4)?;
             let mut kv = Vec::new();
             for _ in 0..n {
@@ -112,7 +126,7 @@ fn value(u: &mut Unstructured<'_>, depth: u32) -> arbitrary::Result<c03::V> {
             }
             V::Map(kv, u.arbitrary()?)
         }
-        28 => {
+        34 => {
             let n = u.int_in_range(0usize..=4)?;
             let mut f = Vec::new();
             for _ in 0..n {
@@ -129,6 +143,22 @@ fn value(u: &mut Unstructured<'_>, depth: u32) -> arbitrary::Result<c03::V> {
             V::StructVariant(u.arbitrary()?, f)
         }
     })
+}
+
+fn pieces(u: &mut Unstructured<'_>) -> arbitrary::Result<Vec<String>> {
+    let n = u.int_in_range(0usize..=4)?;
+    let mut v = Vec::new();
+    for _ in 0..n {
+        v.push(match u.int_in_range(0u8..=3)? {
+            0 => {
+                let len = u.int_in_range(1usize..=320)?;
+                let c = *u.choose(&['s', '"', '\u{e9}', '\n'])?;
+                std::iter::repeat(c).take(len).collect()
+            }
+            _ => String::arbitrary_lossy(u)?,
+        });
+    }
+    Ok(v)
 }
 
 fn values(u: &mut Unstructured<'_>, depth: u32) -> arbitrary::Result<Vec<c03::V>> {
